@@ -815,7 +815,8 @@ func helperClosure(p *Prog, fn *ssa.Function, depth int) []*ssa.Function {
 					return
 				}
 				cal := ci.Common().StaticCallee()
-				if cal == nil || seen[cal] || cal.Blocks == nil || cal.Synthetic != "" || funcPkgPath(cal) != funcPkgPath(fn) {
+				// (instantiations of generic functions of the package are ordinary helpers with a body of their own)
+				if cal == nil || seen[cal] || cal.Blocks == nil || (cal.Synthetic != "" && cal.Origin() == nil) || funcPkgPath(cal) != funcPkgPath(fn) {
 					return
 				}
 				seen[cal] = true
